@@ -48,7 +48,7 @@ func (bindEngine) Budget(tier string) int {
 	if tier == "thorough" {
 		return 200000
 	}
-	return 2500
+	return 8000
 }
 
 /**************** the two-field struct of the bind op ****************/
@@ -534,7 +534,7 @@ func genString(r *Rand, class string) string {
 			case "utf8":
 				b.WriteString(r.Pick([]string{"\x00", "\x01", "\t", "\n", "\r", "\x7f", " ", "\ufeff"}))
 			default:
-				b.WriteString(r.Pick([]string{"\t", "\n", " ", "  "}))
+				b.WriteString(r.Pick([]string{"\t", "\n", "\r", "\r\n", " ", "  "}))
 			}
 		default:
 			b.WriteByte(byte('0' + r.Intn(10)))
@@ -939,6 +939,8 @@ func (bindEngine) Corpus() []Case {
 		"image/svg+xml", "application/jsonx", "text/json", "text/x-www-form-urlencoded", "x/form-data", "multipart/form-data",
 		"application/x-www-form-urlencoded; charset", "multipart/form-data; boundary", "/json", "/xml", "json", "application/xmlish",
 		"APPLICATION/json", "application/x-www-form-urlencoded ; charset=utf-8", ";", "application/json;",
+		"application/xml; a=/form-data", "multipart/form-data; x=\"/xml\"; boundary=" + probeBoundary, "multipart/form-data; x=\"/json\"; boundary=" + probeBoundary,
+		"application/json; x=\"/xml\"", "application/xml; x=\"/json\"", "application/x-www-form-urlencoded; x=\"/json\"", "text/xml; x=\"/x-www-form-urlencoded\"",
 	} {
 		add("markers", probeOps("POST", ct, "off")...)
 		add("markers", probeOps("PATCH", ct, "std")...)
